@@ -3,6 +3,8 @@ package main
 import (
 	"fmt"
 	"github.com/cockroachdb/errors/errorspb"
+	"github.com/gogo/googleapis/google/rpc"
+	"github.com/gogo/protobuf/types"
 	"strings"
 
 	"github.com/cockroachdb/errors"
@@ -90,6 +92,19 @@ func wireBytesSX(e error) SX {
 	return Str(string(b))
 }
 
+// statusWithoutDetails: a google.rpc.Status payload whose details list is empty (the byte-level
+// model covers those; a status with details is skipped)
+func statusWithoutDetails(a *types.Any) bool {
+	if a == nil || a.TypeUrl != "type.googleapis.com/google.rpc.Status" {
+		return false
+	}
+	var st rpc.Status
+	if err := st.Unmarshal(a.Value); err != nil {
+		return false
+	}
+	return len(st.Details) == 0
+}
+
 // payBytesSX: the protobuf bytes of full_details (the Any) of every visible layer, in wire order;
 // (none) when absent, (skip) for the payloads the byte-level model does not cover (a nested
 // EncodedError, a gRPC status).
@@ -101,7 +116,7 @@ func payBytesSX(e error) SX {
 		switch {
 		case a == nil:
 			out = append(out, L(Sym("none")))
-		case strings.HasSuffix(a.TypeUrl, "cockroach.errorspb.EncodedError") || strings.HasSuffix(a.TypeUrl, "google.rpc.Status"):
+		case strings.HasSuffix(a.TypeUrl, "cockroach.errorspb.EncodedError") || (strings.HasSuffix(a.TypeUrl, "google.rpc.Status") && !statusWithoutDetails(a)):
 			out = append(out, L(Sym("skip")))
 		default:
 			b, err := a.Marshal()
@@ -141,7 +156,7 @@ func fullBytesSX(e error) SX {
 		if d.FullDetails == nil {
 			return
 		}
-		ok := false
+		ok := statusWithoutDetails(d.FullDetails)
 		for _, k := range known {
 			if d.FullDetails.TypeUrl == "type.googleapis.com/"+k {
 				ok = true
@@ -189,7 +204,7 @@ func allBytesSX(e error) SX {
 	var walk func(x *errorspb.EncodedError)
 	chk := func(d *errorspb.EncodedErrorDetails) {
 		a := d.FullDetails
-		if a == nil || known[a.TypeUrl] {
+		if a == nil || known[a.TypeUrl] || statusWithoutDetails(a) {
 			return
 		}
 		if a.TypeUrl == "type.googleapis.com/cockroach.errorspb.EncodedError" {
